@@ -1,5 +1,6 @@
 import RtenVerif.Props.C01
 import RtenVerif.Props.C01Fusions
+import RtenVerif.Lemmas.OptimizeReplace
 
 /-!
 # C01 — M1: a concrete (shape × data) operator semantics and `hsem` for real fusions
@@ -271,5 +272,34 @@ theorem c01_silu_rewrite_instance (env : Env (Ten α)) (h1 : env 1 = none) (h2 :
         simpa [opSig] using hsem_silu F E)
     3 (by simp)
   simpa [opMulXT] using this
+
+/-! ## `replace_sound` (M3) instantiated: IdentityFusion through `replace_value` -/
+
+/-- consumer of the removed value: 2 = Sigmoid(1) -/
+def opPost1 : Op (FK α) := ⟨12, .sigmoid, [1], [], [2]⟩
+
+/-- `y = Sigmoid(x + 0)` with a zero constant whose rank does not exceed the rank of `x`: after
+IdentityFusion (`Add` removed, its output replaced by `x` in the consumer) every value that was
+defined is unchanged. -/
+theorem c01_identity_replace_instance (env : Env (Ten α)) (c : Ten α) (hc : env 5 = some c) (hd : c.data = [F.zero])
+    (h1 : allOnes c.shape = true) (hr : ∀ a, env 0 = some a → c.shape.length ≤ a.shape.length)
+    (e1 : env 1 = none) (e2 : env 2 = none) (v : Ten α)
+    (h : run (tsem F) [opBinXC .add, opPost1] env 2 = some v) :
+    run (tsem F) ([opPost1].map (substIns 1 0)) env 2 = some v := by
+  have := replace_sound (tsem F) [] [opPost1] (opBinXC .add) 1 0 env
+    (by simp [WF, outsAll, Op.reads, opBinXC, opPost1])
+    (by intro i hi; simp [outsAll, opBinXC, opPost1] at hi; rcases hi with rfl | rfl <;> assumption)
+    rfl (by simp [outsAll, opBinXC, opPost1]) (by simp [opPost1])
+    (by intro E hE hEb w hw
+        have hE0 : E 0 = env 0 := hE 0 (by simp [outsAll, opBinXC, opPost1])
+        have hE5 : E 5 = some c := (hE 5 (by simp [outsAll, opBinXC, opPost1])).trans hc
+        cases hx : E 0 with
+        | none => simp [step, result, readAll, Op.reads, opBinXC, hx, hEb] at hw
+        | some a =>
+          have hb := binop_scalar_right F.add a c F.zero hd h1 (hr a (hE0 ▸ hx))
+          simp [step, result, readAll, Op.reads, opBinXC, hx, hE5, bind, tsem, hb, map_id_of _ F.add_zero] at hw
+          rw [← hw])
+    2 v h
+  simpa using this
 
 end RtenVerif.Optimize.TSem
